@@ -638,7 +638,7 @@ fn exhaustive(ctx: &mut Ctx, depth: usize) {
 }
 
 pub fn run(ctx: &mut Ctx) {
-    ctx.rule("SP: event alphabet of 24 events (peer: SYN dup, STATE acking everything/stale/future, DATA next/ahead/old, FIN next/next+ack/ahead/old, RESET acking our FIN or not; application: write small/multi-segment, shutdown, drop writer, drop reader, read; clock: 40 ms, 200 ms, 1 s, 11 s) from 7 start states x 2 handshake directions; exhaustive for all sequences up to depth 2 (quick) / 3 (thorough) plus generated sequences up to 12/20 events. Observer oracle on the wire log: SYN-ACK form/interval/count; own FIN seq = last data + 1, after all accepted data, no new payload after it, retransmitted with back-off until acked, due at once when everything is acknowledged; peer FIN honoured only in sequence, acked and answered at the same instant; RESET: nothing emitted afterwards, pending operations fail at once. non-trivial = leaves Established and contains an out-of-order/duplicate/stale control datagram; distinct by hash of the emitted (type, relative seq, ms) sequence");
+    ctx.rule("SP: event alphabet of 24 events (peer: SYN dup, STATE acking everything/stale/future, DATA next/ahead/old, FIN next/next+ack/ahead/old, RESET acking our FIN or not; application: write small/multi-segment, shutdown, drop writer, drop reader, read; clock: 40 ms, 200 ms, 1 s, 11 s) from 7 start states x 2 handshake directions; exhaustive for all sequences up to depth 2 (quick) / 3 (thorough) plus generated sequences up to 12/20 events. Observer oracle on the wire log: SYN-ACK form/interval/count; own FIN seq = last data + 1, after all accepted data, no new payload after it, retransmitted with back-off until acked — and retransmitted at all: with the task alive, nothing delivered and no data outstanding the next FIN transmission follows within an upper bound of the timeout (2x the previous interval, or max(initial RTO, 5x largest possible RTT sample + 10 ms) x 2^retransmissions so far) —, due at once when everything is acknowledged; peer FIN honoured only in sequence, acked and answered at the same instant; RESET: nothing emitted afterwards, pending operations fail at once. non-trivial = leaves Established and contains an out-of-order/duplicate/stale control datagram; distinct by hash of the emitted (type, relative seq, ms) sequence");
     ctx.replay_corpus::<Sp>();
     exhaustive(ctx, ctx.tier.pick(3, 4));
     ctx.run_generated::<Sp>(ctx.tier.pick(60_000, 3_000_000));
